@@ -23,7 +23,7 @@ RULE = (
     "exhaustive plans: every operation sequence of length <= L (L=4 quick, 5 thorough) from the empty database over a 19-letter "
     "alphabet (add of valid neutral / charged / mixture / explicit-H / isotopic compounds, invalid SMILES, duplicate formula with new "
     "SMILES, duplicate SMILES with new formula; add_entries of mixed validity with internal duplicates; remove present/absent), split "
-    "by first letters across plans; seeded plans i = H(seed,'C19',i): 20 histories of length 5-40 from {empty, rules_manager.json.gz, "
+    "by first letters across plans; every triple a,b,c of letters as a, reopen, b, reopen, c where reopen hands the database to a new manager (deep copy, or the repository's save_database/load_database through a scratch file); seeded plans i = H(seed,'C19',i): 20 histories of length 5-40 (7% reopen steps) from {empty, rules_manager.json.gz, "
     "automated_rules.json.gz}. After every step the database is compared with a list model. Non-trivial: history contains >=1 "
     "accepted and >=1 rejected operation; distinct by the operation sequence and start state."
 )
@@ -118,7 +118,9 @@ def gen_plan(base_seed, i, tier):
         ops = []
         for _ in range(n):
             u = rng.random()
-            if u < 0.55:
+            if u < 0.07:
+                ops.append(["reopen", rng.choice(["copy", "file"])])
+            elif u < 0.55:
                 f, s = rng.choice(COMPOUNDS)
                 if rng.random() < 0.15:
                     f = f + "_alt"
@@ -149,6 +151,9 @@ def extra_plans(tier, base_seed):
         plans.append({"property": "C19", "kind": "seeded", "histories": [{"start": st, "ops": [["extract", BIG_EXTRACT], ["add", "C2H6O", "OCC"], ["remove", "C2H6O"], ["extract", BIG_EXTRACT[::-1]]]}]})
     for a in range(len(ALPHABET)):
         plans.append({"property": "C19", "kind": "exhaustive", "first": a, "length": L})
+    # every triple of letters with the database persisted and reopened between the edits (a, reopen, b, reopen, c)
+    for a in range(len(ALPHABET)):
+        plans.append({"property": "C19", "kind": "exhaustive_reopen", "first": a, "mode": ["copy", "file"][a % 2]})
     return plans
 
 
@@ -163,7 +168,8 @@ def run_history(start, ops, start_db=None):
     if not isinstance(db0, list):
         db0 = db0.to_dict("records")
     model = [(e["formula"], e["smiles"]) for e in db0]
-    start_ids = {id(e) for e in mgr.database}
+    # shipped entries are judged once, by start_state_findings; recognised by value so that a reopen (copy / file round trip) keeps them exempt
+    start_keys = {json.dumps(e, sort_keys=True, default=str) for e in db0}
     start_formula = {}
     start_smiles = {}
     for f, s in model:
@@ -197,8 +203,8 @@ def run_history(start, ops, start_db=None):
             if n > max(1, start_smiles.get(s, 0)):
                 vs.append(oracles.V("C19", "duplicate_smiles", op[0], "start=%s after step %d %r: SMILES %r occurs %d times" % (start, step, op, s, n)))
         for e in db:
-            if id(e) in start_ids:
-                continue  # shipped entries are judged once, by start_state_findings
+            if json.dumps(e, sort_keys=True, default=str) in start_keys:
+                continue
             comp = e.get("Composition")
             truth = oracles.side_comp(e["smiles"])
             if truth is None:
@@ -250,6 +256,26 @@ def run_history(start, ops, start_db=None):
                     got_rej = None
                 if got_rej is not None and [(e.get("formula"), e.get("smiles")) for e in got_rej] != [(e["formula"], e["smiles"]) for e in want_rejected]:
                     vs.append(oracles.V("C19", "bulk_rejected_list_wrong", "bulk", "start=%s step %d %r returned rejected=%r, expected %r" % (start, step, op, got_rej, want_rejected)))
+            elif op[0] == "reopen":
+                # persistence between edits: the database leaves this manager and a new manager is built on what came back.
+                # 'copy' = deep copy; 'file' = the repository's own save_database / load_database through a scratch file.
+                try:
+                    if op[1] == "file":
+                        import shutil
+                        import tempfile
+                        from synrbl.SynUtils.data_utils import load_database, save_database
+
+                        d = tempfile.mkdtemp(prefix="c19db-")
+                        try:
+                            save_database(mgr.database, os.path.join(d, "db.json"))
+                            back = load_database(os.path.join(d, "db.json"))
+                        finally:
+                            shutil.rmtree(d, ignore_errors=True)
+                    else:
+                        back = copy.deepcopy(mgr.database)
+                    mgr = RuleImputeManager(back)
+                except Exception as e:
+                    vs.append(oracles.V("C19", "reopen_raised", type(e).__name__, "start=%s step %d %r raised %r" % (start, step, op, e)))
             elif op[0] == "extract":
                 from rdkit import Chem
                 from rdkit.Chem import rdMolDescriptors
@@ -329,6 +355,24 @@ def execute(plan):
             vs += start_state_findings(name)
             out["runs"] += 1
         out["sample"] = {"start_states_checked": STARTS[1:]}
+    elif plan["kind"] == "exhaustive_reopen":
+        first = ALPHABET[plan["first"]]
+        ro = ["reopen", plan["mode"]]
+        for b in ALPHABET:
+            for c in ALPHABET:
+                ops = [first, ro, b, ro, c]
+                v, acc, rej = run_history("empty", ops, start_db=[])
+                out["runs"] += 1
+                for x in v:
+                    x["subplan"] = {"property": "C19", "kind": "seeded", "histories": [{"start": "empty", "ops": ops}]}
+                vs += v
+                if acc and rej:
+                    out["nontrivial_many"].append("%016x" % H(ops))
+                if len(vs) >= 4:
+                    break
+            if len(vs) >= 4:
+                break
+        out["sample"] = {"exhaustive_reopen_first_op": first, "mode": plan["mode"], "histories": out["runs"]}
     else:
         L = plan["length"]
         first = ALPHABET[plan["first"]]
